@@ -41,6 +41,14 @@ CHECKS = {
             "Exploration: FleetStore / Fleet with capacity 1-5, five delays, five transit delays (0 included); every item must become available "
             "exactly at (first departure >= its load) + 2*transit, in loading order; departures = capacity instants and timer expiries.",
             "Trusted: SimPy kernel; harness acts as a process by setting env._active_proc; public lists items/ready_items; the harness's own token ledger. The dispatcher timer phase (restart at every wake-up) is taken from the implementation; delay 0 excluded (C20).", "DESIGN.md §4 C14"),
+    "C03": ("F", "property-based testing: generated factories, outside ledger, exactly-one-place invariant after every kernel event",
+            "Exploration: thousands (quick) to ~10^5 (thorough) generated factories with fan-in/fan-out, pack lines, all edge kinds and "
+            "policies; after every kernel event every item is in exactly one place by ledger vs public edge content, source/node "
+            "equations hold, finite inputs drain completely.", "Trusted: SimPy kernel; the outside ledger (instance-level wrappers around reserve_put/reserve_get/put/get/cancel of every store); public state items/ready_items/stats. Discards are visible only through the nodes' counters.", "DESIGN.md §4 C03"),
+    "C20": ("F", "property-based testing / fuzzing of generated factory configurations (valid and invalid) with exception bucketing",
+            "Exploration: generated valid factories over the widest grammar run under an event-bounded step loop (any escaping exception "
+            "or >20000 events per instant is a violation, bucketed by exception type and innermost library frame) plus generated invalid "
+            "configurations that must be rejected.", "Trusted: SimPy kernel; the outside ledger (instance-level wrappers around reserve_put/reserve_get/put/get/cancel of every store); public state items/ready_items/stats. Valid domain = constructor signatures and parameter docs; known crash signatures are listed in known_findings.json.", "DESIGN.md §4 C20"),
 }
 
 NOT_YET = "check not built yet in this session (work in progress; see DESIGN.md §4)"
